@@ -508,6 +508,34 @@ def noise_hook_rule(ctx, rid):
                 continue
             n_parts += 1
             nq = next((k.value for k in c.keywords if k.arg == 'noise_qubits'), None)
+            if nq is None:
+                # **kw where kw = {} if self.noise is NO_NOISE else {'noise_qubits': <whole>}: without a noise model the hook adds nothing, so the argument is moot on that arm
+                for k in c.keywords:
+                    if k.arg is None and isinstance(k.value, ast.Name):
+                        for a_ in ast.walk(fn):
+                            tgt_ = a_.targets[0] if isinstance(a_, ast.Assign) else (a_.target if isinstance(a_, ast.AnnAssign) else None)
+                            val_ = getattr(a_, 'value', None)
+                            if isinstance(tgt_, ast.Name) and tgt_.id == k.value.id and val_ is not None:
+                                arms = [(val_, None)]
+                                if isinstance(val_, ast.IfExp):
+                                    arms = [(val_.body, (val_.test, True)), (val_.orelse, (val_.test, False))]
+                                good = True
+                                found = None
+                                for d_, cond in arms:
+                                    if not isinstance(d_, ast.Dict):
+                                        good = False
+                                        break
+                                    keys_ = {kk.value: vv for kk, vv in zip(d_.keys, d_.values) if isinstance(kk, ast.Constant)}
+                                    if 'noise_qubits' in keys_:
+                                        found = keys_['noise_qubits']
+                                    else:
+                                        t_ = ast.unparse(cond[0]).replace(' ', '') if cond else ''
+                                        no_noise = cond is not None and ((cond[1] and t_ in ('self.noiseisdevices.NO_NOISE', 'self.noiseisNO_NOISE', 'self._noiseisdevices.NO_NOISE'))
+                                                                         or (not cond[1] and t_ in ('self.noiseisnotdevices.NO_NOISE', 'self.noiseisnotNO_NOISE')))
+                                        if not no_noise:
+                                            good = False
+                                if good and found is not None:
+                                    nq = found
             passes = nq is not None and (f'{whole_src}.all_qubits()' in ast.unparse(nq) or (isinstance(nq, ast.Name) and nq.id in wq))
             ok = passes or (guard is not None and guard.lineno < c.lineno)
             ctx.ob(rid, f'{sb.qual}.{fn.name}:_core_iterator({carg.id})', ok, '' if ok else
